@@ -3,7 +3,7 @@ package main
 func init() { register("C02", checkC02) }
 
 func checkC02(r *Run) {
-	r.Explain = "Decides the second sentence of C02 structurally — the same (type, value) encodes identically through every entry point: A5 extracts, for every value type, the (encoder primitive, settings operands) tuple each front-end (Event, Context, Array methods and every arm of the Fields type switch, pointer arms matched to their value arms) passes the user's value to, and requires the tuples to agree; A6 the integer appenders of the JSON and CBOR encoders widen the logged value without loss (necessary for 'integers exactly over their full 8-64 bit ranges'), also under 386 sizes in the thorough tier; JSONARR the slice appenders of internal/json emit '[', one element primitive per element separated by exactly one ',', and ']' with the same element primitive and settings as the scalar appender; ELEM the expression rendering one element of every json slice appender is, per TimeFieldFormat case, the expression the scalar sibling renders the value with (thin wrappers inlined, helper parameters bound to the constants at the delegation site); ELEM also: a float reaches the output only through strconv.AppendFloat/FormatFloat of that value (no integer fast path), and RawCBOR is rendered with base64.StdEncoding; A4 the JSON string escaper (also judged in C01): every raw copy follows a certified scan, and every escape sequence it emits denotes the character it replaces — the short escape named after the byte, \\u00XX with the byte's own two hex digits (or, where the rune is pinned, the four digits of that rune), U+FFFD only for an invalid sequence; A1 no appender result is dropped. A12 With() carries every byte of the parent's context; ERRFIELD (*Event).Err adds the error field on every path of an enabled event (the stack handling in front of it never returns); DUR both encoders render a duration as the integer quotient d/unit or as float64(d)/float64(unit), never rounded through the other domain. A2 (the typestate of C01) is run here too: a separator doubled or lost in one entry point (Array.Err vs Errs vs Fields) is a different encoding of the same value. STATELESS: outside init no function of the encoder packages writes a package-level variable (a cache shared by all goroutines hands one caller's rendering to another). A5 arms-not-shadowed: no concrete arm of the Fields type switch is preceded by an interface arm its type implements."
+	r.Explain = "Decides the second sentence of C02 structurally — the same (type, value) encodes identically through every entry point: A5 extracts, for every value type, the (encoder primitive, settings operands) tuple each front-end (Event, Context, Array methods and every arm of the Fields type switch, pointer arms matched to their value arms) passes the user's value to, and requires the tuples to agree; A6 the integer appenders of the JSON and CBOR encoders widen the logged value without loss (necessary for 'integers exactly over their full 8-64 bit ranges'), also under 386 sizes in the thorough tier; JSONARR the slice appenders of internal/json emit '[', one element primitive per element separated by exactly one ',', and ']' with the same element primitive and settings as the scalar appender; ELEM the expression rendering one element of every json slice appender is, per TimeFieldFormat case, the expression the scalar sibling renders the value with (thin wrappers inlined, helper parameters bound to the constants at the delegation site); ELEM also: a float reaches the output only through strconv.AppendFloat/FormatFloat of that value (no integer fast path), and RawCBOR is rendered with base64.StdEncoding; A4 the JSON string escaper (also judged in C01): every raw copy follows a certified scan, and every escape sequence it emits denotes the character it replaces — the short escape named after the byte, \\u00XX with the byte's own two hex digits (or, where the rune is pinned, the four digits of that rune), U+FFFD only for an invalid sequence; A1 no appender result is dropped. A12 With() carries every byte of the parent's context; ERRFIELD (*Event).Err adds the error field on every path of an enabled event (the stack handling in front of it never returns); DUR both encoders render a duration as the integer quotient d/unit or as float64(d)/float64(unit), never rounded through the other domain. A2 (the typestate of C01) is run here too: a separator doubled or lost in one entry point (Array.Err vs Errs vs Fields) is a different encoding of the same value. STATELESS: outside init no function of the encoder packages writes a package-level variable (a cache shared by all goroutines hands one caller's rendering to another). A5 arms-not-shadowed: no concrete arm of the Fields type switch is preceded by an interface arm its type implements. TLW-PATH/TLW-FRAME (C15's rules): a held event is released as the bytes that were written, also when a flush is retried."
 	r.NotDec = "Round-trip equality itself: float shortest-digit formatting and the 1e-6/1e21 switch, U+FFFD substitution, time/duration arithmetic, Hex/IP/MAC text forms — value-level, not decided statically."
 	r.Assume = []string{"strconv / time formatting is correct"}
 	p := r.Use("J")
